@@ -15,8 +15,8 @@ def _runner(prop, mk, time_cap=None, extra=None):
 
 
 def c04():
-    from harness import paths
-    return [paths.PathOptimizer()]
+    from harness import paths, rewrites
+    return [paths.PathOptimizer(), rewrites.ClassicOptimize()]
 
 
 def c08():
